@@ -136,7 +136,9 @@ theorem contracted_node_facts {t t1 : TTN} (h : t.WF) {pid cid id1 : Id} {P C nn
     (htd : tensordot1 LP LC idx 0 = some newT)
     (hcc : t1.createContractedNode newT pid cid id1 = some nn) :
     nn.parent = P.parent ∧ WFN nn ∧ nn.shp = shapeOf newT ∧ nn.children.Nodup ∧
-      (∀ x, x ∈ nn.children ↔ ((x ∈ P.children ∧ x ≠ cid) ∨ x ∈ C.children)) := by
+      (∀ x, x ∈ nn.children ↔ ((x ∈ P.children ∧ x ≠ cid) ∨ x ∈ C.children)) ∧
+      nn.children = (if id1 = pid then P.children.erase cid ++ C.children
+                     else C.children ++ P.children.erase cid) := by
   have hstr := h.str
   have hSP := TTN.S_eq hP
   have hSC : t.S cid = some (some pid, C.children) := by rw [TTN.S_eq hC, hCp]
@@ -210,7 +212,13 @@ theorem contracted_node_facts {t t1 : TTN} (h : t.WF) {pid cid id1 : Id} {P C nn
       · exact Or.inl h'
       · exact absurd h' hne
       · exact Or.inr h'
-  refine ⟨e1, e3, e2, ?_, ?_⟩
+  have herase : P.children.erase cid = K1 ++ K2 := by
+    rw [hK, List.erase_append_right _ hK1, List.erase_cons_head]
+  refine ⟨e1, e3, e2, ?_, ?_, ?_⟩
+  rotate_left 2
+  · by_cases hid : id1 = pid
+    · rw [if_pos hid, herase]; exact (e4 hid).1
+    · rw [if_neg hid, herase]; exact (e5 hid).1
   · by_cases hid : id1 = pid
     · rw [(e4 hid).1]; exact hKnd
     · rw [(e5 hid).1]
@@ -385,6 +393,8 @@ theorem contract_final {t t' : TTN} {id1 id2 new : Id} (h : t.WF)
       (new = pid ∨ new = cid ∨ t.N new = none) ∧
       nn.parent = P.parent ∧ WFN nn ∧ nn.shp = shapeOf newT ∧ nn.children.Nodup ∧
       (∀ x, x ∈ nn.children ↔ ((x ∈ P.children ∧ x ≠ cid) ∨ x ∈ C.children)) ∧
+      nn.children = (if id1 = pid then P.children.erase cid ++ C.children
+                     else C.children ++ P.children.erase cid) ∧
       t'.N new = some nn ∧ (pid ≠ new → t'.N pid = none) ∧ (cid ≠ new → t'.N cid = none) ∧
       (∀ k, k ≠ new → k ≠ pid → k ≠ cid →
         (t.N k = none → t'.N k = none) ∧
@@ -435,8 +445,8 @@ theorem contract_final {t t' : TTN} {id1 id2 new : Id} (h : t.WF)
             have hC1 : t1.N cid = some C.resetPermutation := by rw [hN1]; simp
             have hfacts := contracted_node_facts h hP hC hCp hP1 hC1
               (transposeT_length hLP).1 (transposeT_length hLC).1 htd hcc
-            obtain ⟨n1, n2, n3, n4, n5⟩ := hfacts
-            refine ⟨pid, cid, P, C, nn, newT, hP, hC, hCp, hids, hnew', n1, n2, n3, n4, n5, ?_⟩
+            obtain ⟨n1, n2, n3, n4, n5, n6⟩ := hfacts
+            refine ⟨pid, cid, P, C, nn, newT, hP, hC, hCp, hids, hnew', n1, n2, n3, n4, n5, n6, ?_⟩
             have hfin : ∀ k, TTN.N (⟨dset t3.nodes new nn, t3.tensors, t3.root, t3.nextLabel⟩ : TTN) k =
                 if k = new then some nn else t3.N k := by
               intro k; simp [TTN.N, dget_dset]
@@ -644,7 +654,7 @@ theorem wfn_of_crel {pid cid new : Id} {n n' : NodeS} (hr : CRel pid cid new n n
 theorem contract_nodes_wf_aux {t t' : TTN} {id1 id2 new : Id} (h : t.WF)
     (hnew : new = id1 ∨ new = id2 ∨ t.N new = none)
     (hc : t.contractNodes id1 id2 new = some t') : t'.WF := by
-  obtain ⟨pid, cid, P, C, nn, newT, hP, hC, hCp, _, hnew', n1, n2, n3, n4, n5, a1, a2, a3, a4, a5, a6⟩ :=
+  obtain ⟨pid, cid, P, C, nn, newT, hP, hC, hCp, _, hnew', n1, n2, n3, n4, n5, _, a1, a2, a3, a4, a5, a6⟩ :=
     contract_final h hnew hc
   have hSP : t.S pid = some (P.parent, P.children) := TTN.S_eq hP
   have hSC : t.S cid = some (some pid, C.children) := by rw [TTN.S_eq hC, hCp]
